@@ -110,98 +110,154 @@ func (p *pool) run(units []unit, timeboxed bool) bool {
 
 // ---- unit generators ----
 
-func otherPairs(skip ...int) []int {
-	out := make([]int, 0, len(pairs))
-outer:
-	for i := range pairs {
-		for _, s := range skip {
-			if s == i {
-				continue outer
-			}
+// canon: the methods of the table appear in first-use order GET, POST, PUT (restricted growth),
+// i.e. the table is the representative of its class under renaming of the three route methods.
+func canon(regs []regSpec) bool {
+	next := 0
+	for _, g := range regs {
+		if g.m > next {
+			return false
 		}
-		out = append(out, i)
+		if g.m == next {
+			next++
+		}
 	}
-	return out
+	return true
 }
 
-// orderedTables enumerates every k-permutation (1 <= k <= maxK) of pairs starting with u.
-func orderedTables(u, maxK int, emit func(regs []regSpec)) {
+// share decides which tier enumerates a table: tables with at most kFull routes are always in
+// the quick share with every method labelling; larger ones are in the quick share only in
+// canonical labelling, the other labellings form the thorough-only remainder. Quick share and
+// remainder partition the family, so every (table, request) pair is generated exactly once.
+type share struct {
+	kFull int
+	rest  bool // false: quick share, true: remainder
+}
+
+func (s share) has(regs []regSpec) bool {
+	q := len(regs) <= s.kFull || canon(regs)
+	return q != s.rest
+}
+
+// forTables calls emit for every ordered table (k-permutation of pairs) with the given prefix
+// (already in regs) extended to every length up to maxK, the prefix itself included.
+func forTables(prefix []int, maxK int, emit func(regs []regSpec)) {
 	regs := make([]regSpec, 0, 4)
-	regs = append(regs, pairs[u])
-	emit(regs)
-	if maxK < 2 {
-		return
+	used := make([]bool, len(pairs))
+	for _, i := range prefix {
+		regs = append(regs, pairs[i])
+		used[i] = true
 	}
-	for x := range pairs {
-		if x == u {
-			continue
-		}
-		regs = append(regs[:1], pairs[x])
+	var rec func()
+	rec = func() {
 		emit(regs)
-		if maxK < 3 {
-			continue
+		if len(regs) >= maxK {
+			return
 		}
-		for y := range pairs {
-			if y == u || y == x {
+		for i := range pairs {
+			if used[i] {
 				continue
 			}
-			regs = append(regs[:2], pairs[y])
-			emit(regs)
+			used[i] = true
+			regs = append(regs, pairs[i])
+			rec()
+			regs = regs[:len(regs)-1]
+			used[i] = false
 		}
 	}
+	rec()
 }
 
-func unitsMain() []unit {
-	us := []unit{{"main", func(w *worker) { w.runTable(nil, setP1, true) }}}
-	for u := range pairs {
-		u := u
-		us = append(us, unit{"main", func(w *worker) {
-			orderedTables(u, 3, func(regs []regSpec) { w.runTable(regs, setP1, true) })
-		}})
-	}
-	return us
-}
-
-func unitsExt(maxK int, onlyK int, fam string) []unit {
+// tableUnits splits the ordered tables of size 1..maxK into work units: one per first pair for
+// sizes <= 2, one per (first, second) pair for size 3.
+func tableUnits(fam string, maxK int, sh share, body func(w *worker, regs []regSpec)) []unit {
 	var us []unit
-	if onlyK == 0 {
-		us = append(us, unit{fam, func(w *worker) { w.runTable(nil, setExt, false) }})
-	}
 	for u := range pairs {
 		u := u
 		us = append(us, unit{fam, func(w *worker) {
-			orderedTables(u, maxK, func(regs []regSpec) {
-				if onlyK == 0 || len(regs) == onlyK {
-					w.runTable(regs, setExt, false)
+			forTables([]int{u}, minInt(maxK, 2), func(regs []regSpec) {
+				if sh.has(regs) {
+					body(w, regs)
 				}
 			})
 		}})
+	}
+	if maxK >= 3 {
+		for u := range pairs {
+			for x := range pairs {
+				if x == u {
+					continue
+				}
+				u, x := u, x
+				if !sh.rest && sh.kFull < 3 && !canon([]regSpec{pairs[u], pairs[x]}) {
+					continue // no canonical table has a non-canonical prefix
+				}
+				us = append(us, unit{fam, func(w *worker) {
+					forTables([]int{u, x}, 3, func(regs []regSpec) {
+						if len(regs) == 3 && sh.has(regs) {
+							body(w, regs)
+						}
+					})
+				}})
+			}
+		}
 	}
 	return us
 }
 
-func unitsUnclean() []unit {
-	var us []unit
-	for u := range pairs {
-		u := u
-		us = append(us, unit{"unclean", func(w *worker) {
-			tmp := make([]regSpec, 0, 4)
-			orderedTables(u, 2, func(regs []regSpec) {
-				for pos := range regs {
-					for _, sp := range spellingsOf[regs[pos].p] {
-						tmp = append(tmp[:0], regs...)
-						tmp[pos].p = sp
-						w.runTable(tmp, setP1, true)
-					}
-				}
-			})
-			// the same cleaned pattern under the same method in two spellings, both orders
-			for _, sp := range spellingsOf[pairs[u].p] {
-				w.runTable([]regSpec{pairs[u], {pairs[u].m, sp}}, setP1, false)
-				w.runTable([]regSpec{{pairs[u].m, sp}, pairs[u]}, setP1, false)
-			}
-		}})
+func minInt(a, b int) int {
+	if a < b {
+		return a
 	}
+	return b
+}
+
+func unitsMain(sh share) []unit {
+	var us []unit
+	if !sh.rest {
+		us = append(us, unit{"main", func(w *worker) { w.runTable(nil, setP1, true) }})
+	}
+	return append(us, tableUnits("main", 3, sh, func(w *worker, regs []regSpec) { w.runTable(regs, setP1, true) })...)
+}
+
+// unitsExt: onlyK3 selects the 3-route tables (thorough), otherwise sizes 0..2.
+func unitsExt(sh share, onlyK3 bool) []unit {
+	if onlyK3 {
+		return tableUnits("ext-k3", 3, sh, func(w *worker, regs []regSpec) {
+			if len(regs) == 3 {
+				w.runTable(regs, setExt, false)
+			}
+		})
+	}
+	var us []unit
+	if !sh.rest {
+		us = append(us, unit{"ext", func(w *worker) { w.crossCheck = true; w.runTable(nil, setExt, false); w.crossCheck = false }})
+	}
+	return append(us, tableUnits("ext", 2, sh, func(w *worker, regs []regSpec) {
+		w.crossCheck = len(regs) == 1
+		w.runTable(regs, setExt, false)
+		w.crossCheck = false
+	})...)
+}
+
+func unitsUnclean(sh share) []unit {
+	us := tableUnits("unclean", 2, sh, func(w *worker, regs []regSpec) {
+		var tmp [4]regSpec
+		for pos := range regs {
+			for _, sp := range spellingsOf[regs[pos].p] {
+				t := append(tmp[:0], regs...)
+				t[pos].p = sp
+				w.runTable(t, setP1, true)
+			}
+		}
+		if len(regs) == 1 {
+			// the same cleaned pattern under the same method in two spellings, both orders
+			for _, sp := range spellingsOf[regs[0].p] {
+				w.runTable([]regSpec{regs[0], {regs[0].m, sp}}, setP1, false)
+				w.runTable([]regSpec{{regs[0].m, sp}, regs[0]}, setP1, false)
+			}
+		}
+	})
 	return us
 }
 
@@ -212,7 +268,7 @@ func insertAt(regs []regSpec, pos int, g regSpec) []regSpec {
 	return append(out, regs[pos:]...)
 }
 
-func unitsBadReg() []unit {
+func unitsBadReg(sh share) []unit {
 	small := []int{patByRaw["/"], patByRaw["/a"], patByRaw["/:v1"]}
 	bads := func(base []regSpec) []regSpec {
 		var out []regSpec
@@ -241,37 +297,36 @@ func unitsBadReg() []unit {
 		out = append(out, regSpec{firstBadMeth + 2, badPats[1]}) // both wrong
 		return out
 	}
-	us := []unit{{"badreg", func(w *worker) {
-		for _, b := range bads(nil) {
-			w.runTable([]regSpec{b}, setP1, false)
-		}
-	}}}
-	for u := range pairs {
-		u := u
+	var us []unit
+	if !sh.rest {
 		us = append(us, unit{"badreg", func(w *worker) {
-			base := []regSpec{pairs[u]}
-			for _, b := range bads(base) {
-				w.runTable(insertAt(base, 0, b), setP1, false)
-				w.runTable(insertAt(base, 1, b), setP1, false)
+			w.crossCheck = true
+			for _, b := range bads(nil) {
+				w.runTable([]regSpec{b}, setP1, false)
 			}
-			w.runTable([]regSpec{pairs[u], pairs[u]}, setP1, false)
-			w.runTable([]regSpec{pairs[u], pairs[u], pairs[u]}, setP1, false)
-			// k = 2
-			for x := range pairs {
-				if x == u {
-					continue
-				}
-				r0, r1 := pairs[u], pairs[x]
-				w.runTable([]regSpec{r0, r0, r1}, setP1, false)
-				w.runTable([]regSpec{r0, r1, r0}, setP1, false)
-				w.runTable([]regSpec{r0, r1, r1}, setP1, false)
-				w.runTable([]regSpec{r0, r1, {firstBadMeth + 2, r0.p}}, setP1, false)
-				rel := patByRaw[pats[r1.p].raw[1:]] // r1's pattern without the leading '/'
-				w.runTable([]regSpec{r0, r1, {r1.m, rel}}, setP1, false)
-			}
+			w.crossCheck = false
 		}})
 	}
-	return us
+	return append(us, tableUnits("badreg", 2, sh, func(w *worker, regs []regSpec) {
+		if len(regs) == 1 {
+			w.crossCheck = true
+			for _, b := range bads(regs) {
+				w.runTable(insertAt(regs, 0, b), setP1, false)
+				w.runTable(insertAt(regs, 1, b), setP1, false)
+			}
+			w.runTable([]regSpec{regs[0], regs[0]}, setP1, false)
+			w.runTable([]regSpec{regs[0], regs[0], regs[0]}, setP1, false)
+			w.crossCheck = false
+			return
+		}
+		r0, r1 := regs[0], regs[1]
+		w.runTable([]regSpec{r0, r0, r1}, setP1, false)
+		w.runTable([]regSpec{r0, r1, r0}, setP1, false)
+		w.runTable([]regSpec{r0, r1, r1}, setP1, false)
+		w.runTable([]regSpec{r0, r1, {firstBadMeth + 2, r0.p}}, setP1, false)
+		rel := patByRaw[pats[r1.p].raw[1:]] // r1's pattern without the leading '/'
+		w.runTable([]regSpec{r0, r1, {r1.m, rel}}, setP1, false)
+	})...)
 }
 
 var perms4 [][4]int
@@ -410,34 +465,50 @@ func main() {
 		r.Sample(s)
 	}
 
-	phases := []struct {
+	type phase struct {
 		name  string
 		units []unit
-	}{
-		{"main", unitsMain()},
-		{"ext", unitsExt(2, 0, "ext")},
-		{"unclean", unitsUnclean()},
-		{"badreg", unitsBadReg()},
 	}
+	qMain, qSmall := share{kFull: 2}, share{kFull: 1}
+	phases := []phase{
+		{"main", unitsMain(qMain)},
+		{"ext", unitsExt(qSmall, false)},
+		{"unclean", unitsUnclean(qSmall)},
+		{"badreg", unitsBadReg(qSmall)},
+	}
+	if cfg.Thorough() {
+		qMain.rest, qSmall.rest = true, true
+		phases = append(phases,
+			phase{"main (other method labellings of 3-route tables)", unitsMain(qMain)},
+			phase{"unclean (other method labellings of 2-route tables)", unitsUnclean(qSmall)},
+			phase{"badreg (other method labellings of 2-route tables)", unitsBadReg(qSmall)},
+			phase{"ext (other method labellings of 2-route tables)", unitsExt(qSmall, false)},
+			phase{"sets4 ascending insertion order", unitsSets4(0)},
+			phase{"ext-k3 (3-route tables, canonical method labelling)", unitsExt(share{kFull: 2}, true)},
+		)
+	}
+	complete := true
 	for _, ph := range phases {
-		if !p.run(ph.units, true) {
-			r.NotExhaustive("soft time box reached during phase " + ph.name + " (machine overloaded?); phases before it are complete")
+		if time.Now().After(deadline) || !p.run(ph.units, true) {
+			r.NotExhaustive("soft time box reached during phase \"" + ph.name + "\"; the phases before it are complete")
+			complete = false
 			break
 		}
 	}
-	if cfg.Thorough() && !time.Now().After(deadline) {
-		if !p.run(unitsExt(3, 3, "ext-k3"), true) {
-			r.NotExhaustive("soft time box reached during ext-k3 (un-clean request spellings on 3-route tables)")
-		}
+	if cfg.Thorough() {
 		passes := 0
-		for pi := range perms4 {
-			if time.Now().After(deadline) || !p.run(unitsSets4(pi), true) {
-				r.NotExhaustive(fmt.Sprintf("4-route sets: %d of 24 insertion orders completed for all %d sets (order #0 ascending, #1 descending, then lexicographic); the pass in progress was cut by the soft time box", passes, choose4(len(pairs))))
-				break
+		if complete {
+			passes = 1
+			for pi := 1; pi < len(perms4); pi++ {
+				if time.Now().After(deadline) || !p.run(unitsSets4(pi), true) {
+					r.NotExhaustive(fmt.Sprintf("4-route sets: %d of 24 insertion orders completed for all %d sets (order #0 ascending, #1 descending, then lexicographic); the next pass was cut by the soft time box", passes, choose4(len(pairs))))
+					break
+				}
+				passes++
 			}
-			passes++
 		}
 		r.SetExtra("sets4_insertion_orders_completed", passes)
+		r.NotExhaustive("ext-k3 covers 3-route tables in canonical method labelling only (un-clean request spellings x other labellings not enumerated)")
 	}
 
 	// merge
@@ -462,7 +533,7 @@ func main() {
 		"registrations_accepted": tot.RegOK, "registrations_rejected_duplicate": tot.RegDup,
 		"registrations_rejected_unsupported_method": tot.RegBadMethod, "registrations_rejected_relative_pattern": tot.RegBadPath,
 		"respelled_duplicate_rejected": tot.SpelledDupRejected, "respelled_duplicate_accepted_table_skipped": tot.SpelledDupAccepted,
-		"oracle_failures_total": tot.Failures,
+		"oracle_failures_total": tot.Failures, "requests_cross_checked_with_httptest_recorder": tot.CrossChecked,
 	}
 	for k, v := range cnt {
 		r.Count(k, int(v))
